@@ -224,6 +224,26 @@ fn structural_cases(text: &str, out: &mut Vec<Case>) {
             }
         }
     }
+    // duplicate by expanded name where one of the two prefixes is inherited from the root
+    if let Ok(evs) = xmlscan::scan(text) {
+        if let Ok(res) = xmlscan::resolve(&evs) {
+            if res.len() == sp.stags.len() && !sp.stags.is_empty() {
+                let root = &sp.stags[0];
+                for (si, t) in sp.stags.iter().enumerate().skip(1) {
+                    if let Some((l, u, _)) = res[si].attrs.iter().find(|(_, u, _)| !u.is_empty() && u != "http://www.w3.org/XML/1998/namespace") {
+                        if let Some(last) = t.attrs.last() {
+                            let mut esc = String::new();
+                            absdoc::esc_attr(u, &mut esc);
+                            // the later insertion first, so that offsets stay valid
+                            let s1 = splice(text, last.1 .1 + 1, 0, &format!(" zi:{}=\"dup\"", l));
+                            let s2 = splice(&s1, root.name.1, 0, &format!(" xmlns:zi=\"{}\"", esc));
+                            push("duplicate-attribute-by-expanded-name-inherited-prefix", s2, Expect::Reject);
+                        }
+                    }
+                }
+            }
+        }
+    }
     // swap two adjacent end tags with different names (mismatched nesting)
     for w in sp.etags.windows(2) {
         let (a, b) = (&w[0], &w[1]);
